@@ -257,7 +257,7 @@ func TestP1Streams(t *testing.T) {
 	rec := ev.New("C14", "streams")
 	defer rec.Finish(t)
 	rec.Rule("segment sequences (0-8 segments of type 1/2, lengths 0..700 incl. empty, bytes random or hostile 80 01 02 03 patterns), with end marker (+ trailing garbage) or ending after a complete segment; caller buffer-size pattern (1, small, odd/even mixes, large) and underlying read schedule (all at once, 1-byte, drawn chunk sizes, last chunk with EOF) drawn per case; model: text verbatim, binary as lower-case hex. Each Read must fill the buffer unless it ends the stream. Non-trivial: >= 1 odd-length binary or empty segment and >= 1 odd buffer size.")
-	ev.SetupRapid(24000, 1000000)
+	ev.SetupRapid(200000, 8000000)
 	rapid.Check(t, func(t *rapid.T) {
 		c := &pfbCase{Segs: genSegs(t)}
 		c.Marker = rapid.IntRange(0, 3).Draw(t, "marker") > 0
@@ -295,7 +295,7 @@ func TestP2Short(t *testing.T) {
 	defer rec.Finish(t)
 	rec.Rule("streams whose last segment is binary and shorter than declared: cut at every position 0..len-1 (including no data at all), preceded by 0-3 complete segments, read with drawn buffer patterns and chunk schedules: io must end with a non-nil, non-EOF error. Non-trivial: every (stream, cut, buffer pattern).")
 	bug := shortBinBug(rec)
-	ev.SetupRapid(6000, 300000)
+	ev.SetupRapid(40000, 2000000)
 	rapid.Check(t, func(t *rapid.T) {
 		c := &pfbCase{}
 		n := rapid.IntRange(0, 3).Draw(t, "prefix")
